@@ -14,7 +14,10 @@ import (
 // bubble set up by batch (one actor system serves a whole batch, the harness resets the replicators
 // between executions), and the wall budget is checked between batches, outside the bubble (inside a
 // bubble time.Now is virtual).
-func c41BFS[Op any](cfg vsched.BFSConfig, batchSize int, alphabet func(hist []Op) []Op, exec func(hist []Op) vsched.StepResult,
+//
+// exec additionally returns an auxiliary value describing the reached state (what alphabet needs to
+// know about it); it is kept for frontier states only and handed to alphabet.
+func c41BFS[Op any, Aux any](cfg vsched.BFSConfig, batchSize int, alphabet func(hist []Op, aux Aux) []Op, exec func(hist []Op) (vsched.StepResult, Aux),
 	show func(Op) string, batch func(run func()) any) *vsched.ScenarioStats {
 	r := vsched.Rep()
 	st := r.NewScenario(cfg.Scenario, "states")
@@ -33,9 +36,13 @@ func c41BFS[Op any](cfg vsched.BFSConfig, batchSize int, alphabet func(hist []Op
 		return out
 	}
 	seen := map[uint64]struct{}{}
-	var frontier [][]Op
+	type node struct {
+		hist []Op
+		aux  Aux
+	}
+	var frontier []node
 	// runAll executes the histories in batches; it returns false when the budget ran out.
-	runAll := func(work [][]Op, depth int, each func(h []Op, res vsched.StepResult)) bool {
+	runAll := func(work [][]Op, depth int, each func(h []Op, res vsched.StepResult, aux Aux)) bool {
 		for len(work) > 0 {
 			if !r.TimeLeft() || (!cfg.Deadline.IsZero() && time.Now().After(cfg.Deadline)) {
 				st.Capped = fmt.Sprintf("wall budget reached at depth %d", depth)
@@ -50,7 +57,8 @@ func c41BFS[Op any](cfg vsched.BFSConfig, batchSize int, alphabet func(hist []Op
 			p := batch(func() {
 				for _, h := range work[:n] {
 					cur = h
-					each(h, exec(h))
+					res, aux := exec(h)
+					each(h, res, aux)
 					done++
 				}
 			})
@@ -63,7 +71,9 @@ func c41BFS[Op any](cfg vsched.BFSConfig, batchSize int, alphabet func(hist []Op
 		}
 		return true
 	}
-	if !runAll([][]Op{nil}, 0, func(h []Op, res vsched.StepResult) {
+	var rootAux Aux
+	if !runAll([][]Op{nil}, 0, func(h []Op, res vsched.StepResult, aux Aux) {
+		rootAux = aux
 		seen[vsched.Hash64(res.Canon)] = struct{}{}
 		st.States = 1
 		for _, v := range res.Violations {
@@ -72,11 +82,12 @@ func c41BFS[Op any](cfg vsched.BFSConfig, batchSize int, alphabet func(hist []Op
 	}) {
 		return st
 	}
-	frontier = [][]Op{nil}
+	frontier = []node{{nil, rootAux}}
 	for depth := 1; depth <= cfg.Depth; depth++ {
 		var work [][]Op
-		for _, h := range frontier {
-			for oi, op := range alphabet(h) {
+		for _, n := range frontier {
+			h := n.hist
+			for oi, op := range alphabet(h, n.aux) {
 				if depth == 1 && cfg.ShardFirstOp && !r.OwnsIndex(int64(oi)) {
 					continue
 				}
@@ -86,8 +97,8 @@ func c41BFS[Op any](cfg vsched.BFSConfig, batchSize int, alphabet func(hist []Op
 				work = append(work, nh)
 			}
 		}
-		var next [][]Op
-		ok := runAll(work, depth, func(h []Op, res vsched.StepResult) {
+		var next []node
+		ok := runAll(work, depth, func(h []Op, res vsched.StepResult, aux Aux) {
 			st.Transitions++
 			st.Executions++
 			st.Decisions += int64(len(h))
@@ -109,7 +120,7 @@ func c41BFS[Op any](cfg vsched.BFSConfig, batchSize int, alphabet func(hist []Op
 			seen[k] = struct{}{}
 			st.States++
 			if !res.Dead {
-				next = append(next, h)
+				next = append(next, node{h, aux})
 			}
 		})
 		if !ok {
